@@ -172,18 +172,34 @@ def build_all(jobs=8):
         return lib_ok, log
 
 
-def run_model(lines):
-    """feed protocol lines to the extracted model, return decoded answers"""
-    if not lines:
-        return []
+def _run_shard(lines):
     p = subprocess.run(["bash", "-c", "ulimit -s unlimited 2>/dev/null; exec " + DRIVER], input="\n".join(lines) + "\n",
-                       stdout=subprocess.PIPE, stderr=subprocess.PIPE, universal_newlines=True, timeout=3000)
+                       stdout=subprocess.PIPE, stderr=subprocess.PIPE, universal_newlines=True, timeout=6000)
     out = p.stdout.split("\n")
     if out and out[-1] == "":
         out.pop()
     if len(out) != len(lines):
         raise RuntimeError("model driver returned %d answers for %d calls: %s" % (len(out), len(lines), p.stderr[-500:]))
     return [dec_answer(l) for l in out]
+
+
+def run_model(lines):
+    """feed protocol lines to the extracted model (in parallel shards when there are many), return decoded answers"""
+    if not lines:
+        return []
+    total = sum(len(l) for l in lines)
+    shards = 1 if (len(lines) < 400 and total < 2000000) else min(8, max(2, len(lines) // 200))
+    if shards == 1:
+        return _run_shard(lines)
+    from concurrent.futures import ThreadPoolExecutor
+    # interleave so that every shard gets a similar mix of cheap and expensive calls
+    parts = [lines[i::shards] for i in range(shards)]
+    with ThreadPoolExecutor(max_workers=shards) as ex:
+        results = list(ex.map(_run_shard, parts))
+    out = [None] * len(lines)
+    for i, res in enumerate(results):
+        out[i::shards] = res
+    return out
 
 
 # --------------------------------------------------------------------------------- proof step
@@ -301,6 +317,11 @@ def run_property(prop, tier, seed, replay=None):
     os.makedirs(os.path.join(VERIF, "replays"), exist_ok=True)
     proof = proof_step(prop, tier) if replay is None else {"ok": True, "messages": [], "obligations": 0,
                                                             "discharged": 0, "checker_cmd": "(replay)"}
+    # ---- the tie between the model and the exact source it was validated against (harness/sourcetie.py)
+    import sourcetie
+    import roots as roots_mod
+    tie_roots = roots_mod.ROOTS.get(prop.ID, [])
+    tie = sourcetie.check(REPO, tie_roots) if (tie_roots and replay is None) else []
     # ---- cases: corpus first, then generated
     cases = []
     if replay is not None:
@@ -348,13 +369,20 @@ def run_property(prop, tier, seed, replay=None):
                 failures.append({"stream": c.stream, "payload": c.payload, "impl": a, "why": msg})
     # ---- violation search when the proof or the correspondence broke and no failing input is at hand
     searched = 0
-    if (disagreements or not proof["ok"] or model_error) and not failures and replay is None:
+    if (disagreements or not proof["ok"] or model_error or tie) and not failures and replay is None:
         srng = random.Random(seed + 7919)
         extra = []
         if hasattr(prop, "neighbours"):
             for d in disagreements[:20]:
                 extra.extend(prop.neighbours(d["stream"], d["payload"], srng))
-        for stream, payload in list(prop.payloads(srng, "search")) + extra:
+        # when the source of a modelled function changed, earlier runs say nothing about the new code: search with the
+        # thorough generators under a time budget (oracle on the implementation, cheap) before giving a verdict
+        t_search = time.time()
+        budget = float(os.environ.get("VERIF_SEARCH_SECONDS", "150" if tier == "quick" else "900"))
+        import itertools
+        stream_iter = itertools.chain(extra, prop.payloads(srng, "search"),
+                                      prop.payloads(srng, "thorough") if tie else [])
+        for stream, payload in stream_iter:
             c = prop.build(stream, payload)
             if c.oracle is None:
                 continue
@@ -363,6 +391,8 @@ def run_property(prop, tier, seed, replay=None):
             msg = c.oracle(a, r)
             if msg:
                 failures.append({"stream": c.stream, "payload": c.payload, "impl": a, "why": msg})
+                break
+            if time.time() - t_search > budget:
                 break
     # ---- known findings
     known = [f for f in load_known() if f.get("property") == prop.ID and f.get("status", "open") == "open"]
@@ -379,7 +409,7 @@ def run_property(prop, tier, seed, replay=None):
             new_failures.append(f)
     # ---- verdict
     violation, replay_path, suffix = False, None, ""
-    if new_failures or disagreements or model_error or not proof["ok"]:
+    if new_failures or disagreements or model_error or not proof["ok"] or tie:
         violation = True
         rp = {"property": prop.ID, "seed": seed, "tier": tier}
         if new_failures:
@@ -402,6 +432,10 @@ def run_property(prop, tier, seed, replay=None):
                                      "model_functions": list(getattr(prop, "MODEL_FUNCTIONS", []))})
             if model_error:
                 rp["broken"].append({"model_driver": model_error})
+            if tie:
+                rp["broken"].append({"source_tie": tie, "meaning": "the source of these functions is not the source the model and "
+                                     "its theorems were validated against; the property is no longer shown to hold for the "
+                                     "new code (theorems: %s)" % ", ".join(prop.THEOREMS)})
             rp["cases"] = [{"stream": d["stream"], "payload": d["payload"]} for d in disagreements[:10]]
             rp["searched_for_failing_input"] = searched
         rp["disagreements"] = disagreements[:10]
@@ -434,6 +468,9 @@ def run_property(prop, tier, seed, replay=None):
                                    list(getattr(prop, "MODEL_FUNCTIONS", [])), "model_error": model_error},
             "oracle": {"evaluations": oracle_evals, "failures": len(failures), "new_failures": len(new_failures),
                        "searched_after_break": searched},
+            "source_tie": {"roots": tie_roots, "differences": tie,
+                           "rule": "SHA-256 of the docstring-free AST of every dsw function reachable from the roots, and of the "
+                                   "module-level code of their files, compared with harness/fingerprints.json"},
             "input_distribution": dict(dist), "impl_outcomes": dict(status),
             "known_findings_hit": {k: v["count"] for k, v in known_hit.items()},
             "exhaustive": bool(getattr(prop, "EXHAUSTIVE", {}).get(tier, False)),
@@ -454,6 +491,8 @@ def run_property(prop, tier, seed, replay=None):
     if violation:
         for m in proof.get("messages", [])[:5]:
             print("  proof: " + m[:600])
+        for m in tie[:6]:
+            print("  source tie: " + m)
         for d in disagreements[:3]:
             print("  disagreement: " + json.dumps(d, default=str)[:600])
         for f in new_failures[:3]:
